@@ -23,6 +23,8 @@ MEMS = [RAM_A, RAM_B, RAM_T]
 CODE = 0x10000
 L1_TABLE = 0x4000
 L2_TABLE = 0x3000
+# physical ranges that User-mode code has no write permission for, per protection setting (programmed below)
+USER_PROTECTED = {'off': [], 'mpu': [(0x1000, 0x3000), (0x11800, 0x12000)], 'mmu': [(0x1000, 0x8000)]}
 
 ADDRISH = [0x0, 0x4, 0x100, 0x104, 0xFFC, 0x1000, 0x1004, 0x1FFC, 0x2000, 0x2ffc, 0x7FF8, 0x7FFC, 0x7FFE, 0x8000,
            0x10800, 0x11000, 0x11004, 0x11FF8, 0x11FFC, 0x12000, 0xFFFFF000, 0xFFFFF800, 0xFFFFFFE0, 0xFFFFFFF0,
@@ -76,7 +78,7 @@ class Ctx:
             M.poke(cpu, a, v.to_bytes(4, 'little'))
         for i in range(4096):
             w32(L1_TABLE + 4 * i, 0)
-        w32(L1_TABLE + 4 * 0x000, (0x000 << 20) | (0b11 << 10) | (0 << 5) | 0b10)       # flat, full access, domain 0
+        w32(L1_TABLE + 4 * 0x000, (0x000 << 20) | (0b10 << 10) | (0 << 5) | 0b10)       # flat, priv RW / user RO, domain 0
         w32(L1_TABLE + 4 * 0x001, (0x000 << 20) | (0b01 << 10) | (0 << 5) | 0b10)       # alias, privileged only
         w32(L1_TABLE + 4 * 0x002, L2_TABLE | (0 << 5) | 0b01)                           # page table
         w32(L1_TABLE + 4 * 0x003, (0x000 << 20) | (0b11 << 10) | (2 << 5) | 0b10)       # domain 2 (no access)
